@@ -409,6 +409,22 @@ func (a *genWalker) pieces(e ast.Expr) ([]genPiece, bool) {
 		if d := a.fieldClass(x); d != nil {
 			return []genPiece{{dyn: d}}, true
 		}
+		// a string member of the generator's own state struct (`g.pkg`), set where the struct is built
+		if obj, ok := a.info.Uses[x.Sel].(*types.Var); ok && obj.IsField() {
+			if def, ok := a.locals[obj]; ok {
+				ps, ok := a.pieces(def)
+				if ok && a.kwSafe[obj] {
+					for i := range ps {
+						if ps[i].dyn != nil {
+							d := *ps[i].dyn
+							d.kwSafe = true
+							ps[i].dyn = &d
+						}
+					}
+				}
+				return ps, ok
+			}
+		}
 	case *ast.SliceExpr:
 		// a prefix/suffix of a repeated one-byte constant (`indent[:n]` of strings.Repeat("\t", k)) is again zero or
 		// more copies of that byte
@@ -450,7 +466,14 @@ func (a *genWalker) pieces(e ast.Expr) ([]genPiece, bool) {
 		}
 		// strings.NewReplacer("a", "b", ...).Replace(x) with single-byte constant patterns: as the Replace calls in turn
 		if se, ok := x.Fun.(*ast.SelectorExpr); ok && se.Sel.Name == "Replace" && len(x.Args) == 1 {
-			if inner, ok := se.X.(*ast.CallExpr); ok {
+			recv := se.X
+			if id, isId := recv.(*ast.Ident); isId {
+				// a package-level replacer: `var quoter = strings.NewReplacer(...)`
+				if init := a.packageVarInit(a.info.Uses[id]); init != nil {
+					recv = init
+				}
+			}
+			if inner, ok := recv.(*ast.CallExpr); ok {
 				if ise, ok := inner.Fun.(*ast.SelectorExpr); ok && ise.Sel.Name == "NewReplacer" && len(inner.Args)%2 == 0 {
 					if id, ok := ise.X.(*ast.Ident); ok && id.Name == "strings" {
 						ps, ok := a.pieces(x.Args[0])
@@ -739,6 +762,123 @@ func isBufWrite(call *ast.CallExpr) bool {
 	return ok && se.Sel.Name == "WriteString"
 }
 
+// variadicEmitter: fd's only non-buffer parameter is `s ...string` and its body is `for _, x := range s { <buffer>.WriteString(x) }`.
+func variadicEmitter(info *types.Info, fd *ast.FuncDecl) bool {
+	if fd.Body == nil || len(fd.Body.List) != 1 || fd.Type.Params == nil || len(fd.Type.Params.List) == 0 {
+		return false
+	}
+	last := fd.Type.Params.List[len(fd.Type.Params.List)-1]
+	el, ok := last.Type.(*ast.Ellipsis)
+	if !ok || len(last.Names) != 1 || !types.Identical(info.TypeOf(el.Elt), types.Typ[types.String]) {
+		return false
+	}
+	// other parameters may only be the buffer
+	for _, f := range fd.Type.Params.List[:len(fd.Type.Params.List)-1] {
+		if !isBufferType(info.TypeOf(f.Type)) {
+			return false
+		}
+	}
+	rs, ok := fd.Body.List[0].(*ast.RangeStmt)
+	if !ok || rs.Value == nil || len(rs.Body.List) != 1 {
+		return false
+	}
+	if id, ok := rs.X.(*ast.Ident); !ok || info.Uses[id] != info.Defs[last.Names[0]] {
+		return false
+	}
+	es, ok := rs.Body.List[0].(*ast.ExprStmt)
+	if !ok {
+		return false
+	}
+	call, ok := es.X.(*ast.CallExpr)
+	if !ok || !isBufWrite(call) || len(call.Args) != 1 {
+		return false
+	}
+	arg, ok := call.Args[0].(*ast.Ident)
+	val, ok2 := rs.Value.(*ast.Ident)
+	return ok && ok2 && info.Uses[arg] == info.Defs[val]
+}
+
+// recordStateFields: string-typed members of a struct declared in the generator package that are set by a composite
+// literal or a member assignment become known values (the variable they are set from may carry the keyword guard).
+func (a *genWalker) recordStateFields(lhs, rhs ast.Expr) {
+	set := func(fld *types.Var, val ast.Expr) {
+		if fld == nil || !fld.IsField() || fld.Pkg() == nil || fld.Pkg().Path() != pkgGen || !types.Identical(fld.Type(), types.Typ[types.String]) {
+			return
+		}
+		a.locals[fld] = a.freeze(val)
+		if id, ok := val.(*ast.Ident); ok && a.kwSafe[a.info.Uses[id]] {
+			a.kwSafe[fld] = true
+		}
+	}
+	if se, ok := lhs.(*ast.SelectorExpr); ok {
+		if fld, ok := a.info.Uses[se.Sel].(*types.Var); ok {
+			set(fld, rhs)
+		}
+		return
+	}
+	if u, ok := rhs.(*ast.UnaryExpr); ok && u.Op == token.AND {
+		rhs = u.X
+	}
+	cl, ok := rhs.(*ast.CompositeLit)
+	if !ok {
+		return
+	}
+	st, ok := a.info.TypeOf(cl).Underlying().(*types.Struct)
+	if !ok {
+		return
+	}
+	for i, el := range cl.Elts {
+		if kv, ok := el.(*ast.KeyValueExpr); ok {
+			if kid, ok := kv.Key.(*ast.Ident); ok {
+				if fld, ok := a.info.Uses[kid].(*types.Var); ok {
+					set(fld, kv.Value)
+				} else {
+					for j := 0; j < st.NumFields(); j++ {
+						if st.Field(j).Name() == kid.Name {
+							set(st.Field(j), kv.Value)
+						}
+					}
+				}
+			}
+		} else if i < st.NumFields() {
+			set(st.Field(i), el)
+		}
+	}
+}
+
+// concatArgs: a1 + a2 + ... (what a variadic emitter writes).
+func concatArgs(args []ast.Expr) ast.Expr {
+	var e ast.Expr
+	for _, a := range args {
+		if e == nil {
+			e = a
+		} else {
+			e = &ast.BinaryExpr{X: e, Op: token.ADD, Y: a, OpPos: a.Pos()}
+		}
+	}
+	return e
+}
+
+// variadicCount: how many of the call's arguments belong to the variadic parameter.
+func variadicCount(fd *ast.FuncDecl, call *ast.CallExpr) int {
+	fixed := 0
+	for _, f := range fd.Type.Params.List[:len(fd.Type.Params.List)-1] {
+		fixed += len(f.Names)
+	}
+	if n := len(call.Args) - fixed; n > 0 {
+		return n
+	}
+	return 0
+}
+
+// isBufferType: *bytes.Buffer / *strings.Builder (or the values).
+func isBufferType(t types.Type) bool {
+	if pt, ok := t.(*types.Pointer); ok {
+		t = pt.Elem()
+	}
+	return isNamed(t, "bytes", "Buffer") || isNamed(t, "strings", "Builder")
+}
+
 // branch walks the body of a branch or loop: its text is a segment of its own.
 func (a *genWalker) branch(list []ast.Stmt, l lexState, rets *[]lexState) (lexState, bool) {
 	a.flushSeg()
@@ -817,6 +957,12 @@ func (a *genWalker) stmt(s ast.Stmt, l lexState, rets *[]lexState) (lexState, bo
 			}
 			if id, ok := call.Fun.(*ast.Ident); ok {
 				if fd, ok := a.funcs[id.Name]; ok {
+					if variadicEmitter(a.info, fd) && !call.Ellipsis.IsValid() {
+						if e := concatArgs(call.Args[len(call.Args)-variadicCount(fd, call):]); e != nil {
+							l = a.feedExpr(l, e)
+						}
+						return l, false
+					}
 					a.bindParams(fd, call)
 					return a.callFn(fd, l, call), false
 				}
@@ -824,6 +970,14 @@ func (a *genWalker) stmt(s ast.Stmt, l lexState, rets *[]lexState) (lexState, bo
 			// a method declared in the generator on its output type (`func (o *out) line(s string)`)
 			if se, ok := call.Fun.(*ast.SelectorExpr); ok {
 				if fd := a.methodDecl(se); fd != nil {
+					// `func (g *gen) p(s ...string) { for _, x := range s { g.out.WriteString(x) } }`: writes its
+					// arguments in order
+					if variadicEmitter(a.info, fd) && !call.Ellipsis.IsValid() {
+						if e := concatArgs(call.Args[len(call.Args)-variadicCount(fd, call):]); e != nil {
+							l = a.feedExpr(l, e)
+						}
+						return l, false
+					}
 					a.bindParams(fd, call)
 					return a.callFn(fd, l, call), false
 				}
@@ -831,6 +985,9 @@ func (a *genWalker) stmt(s ast.Stmt, l lexState, rets *[]lexState) (lexState, bo
 		}
 	case *ast.AssignStmt:
 		if len(x.Lhs) == 1 && len(x.Rhs) == 1 {
+			// g := &generator{pkg: pkgname, ...} / g.pkg = pkgname: string members of the generator's state are
+			// values like locals (keyed by the field object)
+			a.recordStateFields(x.Lhs[0], x.Rhs[0])
 			if id, ok := x.Lhs[0].(*ast.Ident); ok {
 				obj := a.info.Defs[id]
 				if obj == nil {
@@ -1333,6 +1490,58 @@ func generatorRoot(p *Prog) string {
 }
 
 // methodDecl: the declaration of the generator's own method selected by se, if any (and it is not WriteString itself).
+// packageVarInit: the initialiser of a package-level variable of the generator that is never assigned elsewhere.
+func (a *genWalker) packageVarInit(obj types.Object) ast.Expr {
+	v, ok := obj.(*types.Var)
+	if !ok || v.Pkg() == nil || v.Pkg().Path() != pkgGen || v.Parent() != v.Pkg().Scope() {
+		return nil
+	}
+	var init ast.Expr
+	assigned := false
+	for _, f := range a.p.Pkgs[pkgGen].Syntax {
+		ast.Inspect(f, func(n ast.Node) bool {
+			switch x := n.(type) {
+			case *ast.ValueSpec:
+				for i, nm := range x.Names {
+					if a.info.Defs[nm] == obj && i < len(x.Values) {
+						init = x.Values[i]
+					}
+				}
+			case *ast.AssignStmt:
+				for _, l := range x.Lhs {
+					if id, ok := l.(*ast.Ident); ok && a.info.Uses[id] == obj {
+						assigned = true
+					}
+				}
+			case *ast.UnaryExpr:
+				if id, ok := x.X.(*ast.Ident); ok && x.Op == token.AND && a.info.Uses[id] == obj {
+					assigned = true
+				}
+			}
+			return true
+		})
+	}
+	if assigned {
+		return nil
+	}
+	return init
+}
+
+// decls: the functions and the methods of the generator package (methods keyed "<name>()").
+func (a *genWalker) decls() map[string]*ast.FuncDecl {
+	out := map[string]*ast.FuncDecl{}
+	for n, fd := range a.funcs {
+		out[n] = fd
+	}
+	for n, fd := range a.methods {
+		if _, clash := out[n]; clash {
+			n += "()"
+		}
+		out[n] = fd
+	}
+	return out
+}
+
 func (a *genWalker) methodDecl(se *ast.SelectorExpr) *ast.FuncDecl {
 	sel, ok := a.info.Selections[se]
 	if !ok || sel.Kind() != types.MethodVal {
